@@ -38,6 +38,11 @@ DIFFERENT = [
     ("def f(xs, pred):\n    yes_no = yes, no = [], []\n    for r in xs:\n        yes.append(r) if pred(r) else no.append(r)\n    return tuple(len(c) for c in yes_no)\n",
      "def f(xs, pred):\n    yes, no = [], []\n    for r in xs:\n        yes.append(r) if pred(r) else no.append(r)\n    return tuple(len(c) for c in ([], []))\n"),
     ("def f(xs):\n    pair_ = ([], [])\n    a, b = pair_\n    a.append(1)\n    return pair_\n", "def f(xs):\n    a = []\n    a.append(1)\n    return ([], [])\n"),
+    # helpers that are seen through: a store made inside one (through an alias of its parameter), a mutation of a variable it closes over
+    ("def f(a, b, xs):\n    def _helper1(c_, k_, v_):\n        c_[k_] = v_\n    r = {}\n    for t1 in xs:\n        _helper1(r, t1, a - t1)\n    t2 = len(r)\n    return t2\n",
+     "def f(a, b, xs):\n    def _helper1(c_, k_, v_):\n        c_[k_] = v_\n    r = {}\n    t2 = len(r)\n    for t1 in xs:\n        _helper1(r, t1, a - t1)\n    return t2\n"),
+    ("def f(a):\n    def _helper2(t1):\n        return (ys.extend([t1 - 1]), len(ys))[1]\n    ys = []\n    t2 = _helper2(a)\n    return (a, ys)\n",
+     "def f(a):\n    def _helper2(t1):\n        return (ys.extend([t1 - 0]), len(ys))[1]\n    ys = []\n    t2 = _helper2(a)\n    return (a, ys)\n"),
 ]
 SAME = [
     ("def f(sub, st):\n    tot = sum([sub[k].m * v for k, v in st.items()])\n    return {k: sub[k].m * v / tot for k, v in st.items()}\n",
@@ -53,7 +58,9 @@ SAME = [
 
 
 def form(src):
-    return nf.normal_form(ast.parse(src).body[0])
+    fn = ast.parse(src).body[0]
+    helpers = {x.name: x for x in ast.walk(fn) if isinstance(x, ast.FunctionDef) and x is not fn and x.name.startswith("_helper")}   # seen through, as one-sided helpers are
+    return nf.normal_form(fn, None, helpers)
 
 
 def main():
